@@ -138,4 +138,76 @@ Proof.
     split; [exact Hc|]. split; [reflexivity | intros _; constructor; [exact Hchk | constructor]].
 Qed.
 
+(* ---- a normal form: every operation is "check the written values, then commit the specified pairs" ---- *)
+Fixpoint check_list (kvs : list (bytes * bytes)) : res unit :=
+  match kvs with [] => Ok tt | kv :: t => check_reserved c (fst kv) (snd kv) ;; check_list t end.
+
+(* whether the operation applies the size limit before incrementing the sequence number *)
+Definition pre_check (o : op) : bool :=
+  match o with
+  | ORemoveUdp4 | ORemoveUdp6 | ORemoveTcp | ORemoveTcp6 | ORemoveKey _
+  | ORemoveUdpSocket | ORemoveUdp6Socket | ORemoveTcpSocket | ORemoveTcp6Socket | ORemoveInsert _ _ => false
+  | _ => true
+  end.
+
+Definition commit (r : record) (o : op) (k : skey) (sg : signer) : res record :=
+  match o with
+  | OSetSeq n => set_seq c kt r n k sg
+  | _ => finish c kt (pre_check o) r (spec_pairs o k (content r)) k sg
+  end.
+
+Definition checked_inserts (o : op) : list (bytes * bytes) := if unchecked_op o then [] else inserts o.
+
+Lemma insert_all_nf ins : forall m,
+  insert_all c ins m =
+  (check_list (map framed ins) ;; Ok (prev_inserted (map framed ins) m, insert_pairs (map framed ins) m)).
+Proof.
+  induction ins as [|[key raw] t IH]; intros m; cbn [insert_all map framed check_list fst snd prev_inserted insert_pairs fold_left]; [reflexivity|].
+  destruct (check_reserved c key (enc_string raw)) as [[]|e|]; cbn [bind]; try reflexivity.
+  rewrite IH. destruct (check_list (map framed t)) as [[]|e|]; reflexivity.
+Qed.
+
+Theorem apply_op_nf r o k sg :
+  apply_op c kt r o k sg =
+  (check_list (checked_inserts o) ;; do r' <- commit r o k sg; Ok (spec_ret o r, r')).
+Proof.
+  unfold checked_inserts, commit, spec_pairs.
+  destruct o; cbn [apply_op unchecked_op inserts removes check_list pre_check spec_ret remove_keys insert_pairs fold_left fst snd bind];
+    unfold unit_ret, set_ip, set_port, set_client_info, set_public_key, insert_raw, remove_key, set_socket, remove_insert.
+  - destruct (set_seq c kt r n k sg); reflexivity.
+  - destruct (check_reserved c key (enc_tval v)) as [[]|e|]; cbn [bind]; try reflexivity. destruct (finish _ _ _ _ _ _ _); reflexivity.
+  - destruct (check_reserved c key value) as [[]|e|]; cbn [bind]; try reflexivity. destruct (finish _ _ _ _ _ _ _); reflexivity.
+  - rewrite ip_key_eq. destruct (check_reserved c (ip_key addr) (enc_string addr)) as [[]|e|]; cbn [bind]; try reflexivity.
+    destruct (finish _ _ _ _ _ _ _); cbn [bind]; try reflexivity.
+    f_equal. f_equal. f_equal. unfold ip_key. destruct (lenN addr =? 4); cbn [negb];
+      [apply prev_ip4_is_accessor | apply prev_ip6_is_accessor].
+  - destruct (check_reserved c k_udp (enc_uint p)) as [[]|e|]; cbn [bind]; try reflexivity.
+    destruct (finish _ _ _ _ _ _ _); cbn [bind]; try reflexivity. do 3 f_equal. apply prev_port_is_accessor.
+  - destruct (check_reserved c k_udp6 (enc_uint p)) as [[]|e|]; cbn [bind]; try reflexivity.
+    destruct (finish _ _ _ _ _ _ _); cbn [bind]; try reflexivity. do 3 f_equal. apply prev_port_is_accessor.
+  - destruct (check_reserved c k_tcp (enc_uint p)) as [[]|e|]; cbn [bind]; try reflexivity.
+    destruct (finish _ _ _ _ _ _ _); cbn [bind]; try reflexivity. do 3 f_equal. apply prev_port_is_accessor.
+  - destruct (check_reserved c k_tcp6 (enc_uint p)) as [[]|e|]; cbn [bind]; try reflexivity.
+    destruct (finish _ _ _ _ _ _ _); cbn [bind]; try reflexivity. do 3 f_equal. apply prev_port_is_accessor.
+  - destruct (finish _ _ _ _ _ _ _); reflexivity.
+  - destruct (finish _ _ _ _ _ _ _); reflexivity.
+  - destruct (finish _ _ _ _ _ _ _); reflexivity.
+  - destruct (finish _ _ _ _ _ _ _); reflexivity.
+  - destruct (check_reserved c k_client (enc_strings strs)) as [[]|e|]; cbn [bind]; try reflexivity.
+    destruct (finish _ _ _ _ _ _ _); reflexivity.
+  - cbv zeta. rewrite ip_key_eq, udp_key_eq. destruct (finish _ _ _ _ _ _ _); reflexivity.
+  - cbv zeta. rewrite ip_key_eq, tcp_key_eq. destruct (finish _ _ _ _ _ _ _); reflexivity.
+  - cbn [remove_all insert_all bind]. destruct (finish _ _ _ _ _ _ _); reflexivity.
+  - cbn [remove_all insert_all bind]. destruct (finish _ _ _ _ _ _ _); reflexivity.
+  - cbn [remove_all insert_all bind]. destruct (finish _ _ _ _ _ _ _); reflexivity.
+  - cbn [remove_all insert_all bind]. destruct (finish _ _ _ _ _ _ _); reflexivity.
+  - destruct (finish _ _ _ _ _ _ _); reflexivity.
+  - rewrite remove_all_spec. rewrite insert_all_nf.
+    change (map (fun kv : bytes * bytes => (fst kv, enc_string (snd kv))) ins) with (map framed ins).
+    destruct (check_list (map framed ins)) as [[]|e|]; cbn [bind]; try reflexivity.
+    destruct (finish _ _ _ _ _ _ _); reflexivity.
+  - destruct (check_reserved c (scheme_key (pk_scheme p)) (enc_string (pk_enc p))) as [[]|e|]; cbn [bind]; try reflexivity.
+    destruct (finish _ _ _ _ _ _ _); reflexivity.
+Qed.
+
 End WithCrypto.
